@@ -152,7 +152,7 @@ def evaluate(ctx, R, case, a, b, before, dry, real):
 
 def run(ctx: core.Ctx):
     R = rc.Runner(ctx)
-    n = 14 if ctx.quick() else 160
+    n = 20 if ctx.quick() else 200
     if getattr(ctx, "deep", False):
         n *= 2
     cases = corpus_cases() + gen_cases(ctx, n)
